@@ -6,7 +6,9 @@
 
   The reducers are translated over integer cells with exact rational results (Python's `/` on ints is exact up to float rounding;
   the harness compares the exact fraction of the float the code returns); `stdev` is translated without its final `** 0.5`.
-  Grouping by `gather`, result order, names and the window's expansion back to rows are tied by the correspondence leg.
+  The 1-D branches of `Vector.sum/min/max/mean/stdev` are translated by the same translator and equal the model's `vecReduce`
+  (the last clause of C12).  Grouping by `gather`, result order, names and the window's expansion back to rows are tied by the
+  correspondence leg.
   Supplementary (see Serif/Tie/Typing.lean).
 -/
 import Serif.Gen.TranslatedGroup
@@ -119,6 +121,44 @@ theorem stdevAgg_eq (vals : List (Option Int)) : stdevTAgg vals = varF vals := b
 theorem stdevWin_eq (vals : List (Option Int)) : stdevTWin vals = varF vals := by
   unfold stdevTWin varF clean
   exact var_core _
+
+/-! ### whole-column reductions of `Vector` (the last clause of C12) -/
+
+private theorem sum_sq_mul (c : List Int) (m : Rat) (a : Rat) :
+    (c.map (fun x => (((x : Int) : Rat) - m) * (((x : Int) : Rat) - m))).foldl (· + ·) a
+      = c.foldl (fun (acc : Rat) (x : Int) => acc + ((x : Rat) - m) * ((x : Rat) - m)) a := by
+  induction c generalizing a with
+  | nil => rfl
+  | cons x xs ih => simp [List.foldl_cons, ih]
+
+theorem vectorSum_eq (vals : List (Option Int)) : vecReduce .sum vals = some (some ((vectorSumT vals : Int) : Rat)) := rfl
+
+theorem vectorMin_eq (vals : List (Option Int)) :
+    vecReduce .min vals = (vectorMinT vals).map (fun (i : Int) => some (i : Rat)) := by
+  unfold vecReduce vectorMinT clean; rw [pyMin_eq]
+
+theorem vectorMax_eq (vals : List (Option Int)) :
+    vecReduce .max vals = (vectorMaxT vals).map (fun (i : Int) => some (i : Rat)) := by
+  unfold vecReduce vectorMaxT clean; rw [pyMax_eq]
+
+theorem vectorMean_eq (vals : List (Option Int)) : vecReduce .mean vals = some (vectorMeanT vals) := by
+  unfold vecReduce vectorMeanT clean pySumInt isum
+  simp only []
+  generalize vals.filterMap id = c
+  cases c <;> simp
+
+theorem vectorStdev_eq (vals : List (Option Int)) : vecReduce .stdev vals = some (vectorStdevT false vals) := by
+  unfold vecReduce vectorStdevT clean
+  simp only []
+  generalize vals.filterMap id = c
+  by_cases h : c.length < 2
+  · have : ((c.length : Nat) : Int) < 2 := by omega
+    simp [h, this]
+  · have : ¬ ((c.length : Nat) : Int) < 2 := by omega
+    simp only [h, this, decide_false, Bool.false_eq_true, ↓reduceIte]
+    unfold pySumRat pySumInt isum
+    rw [sum_sq_mul]
+    simp [Rat.intCast_sub, Rat.intCast_natCast, Rat.intCast_add, Rat.add_zero]
 
 /-- non-vacuity: the translated reducers on a group with a None -/
 example : sumTAgg [some 3, none, some 4] = 7 ∧ countTWin [some 3, none, some 4] = 2 ∧ minTAgg [none] = none
